@@ -109,6 +109,9 @@ func VerifyProof(rootHash common.Hash, key []byte, proofDb DatabaseReader) (valu
 		if buf == nil {
 			return nil, i, fmt.Errorf("proof node %d (hash %064x) missing", i, wantHash)
 		}
+		if crypto.Keccak256Hash(buf) != wantHash {
+			return nil, i, fmt.Errorf("proof node %d does not hash to %064x", i, wantHash)
+		}
 		n, err := decodeNode(wantHash[:], buf, 0)
 		if err != nil {
 			return nil, i, fmt.Errorf("bad proof node %d: %v", i, err)
